@@ -375,6 +375,30 @@ func ruleLayoutOnly(c *Ctx) {
 						var got []string
 						for _, e := range el {
 							s, ws := isWhitespaceConst(e)
+							if par, isPar := e.(*ssa.Parameter); isPar && !ws {
+								// an unexported helper queues its parameter: every call site hands it a whitespace constant
+								idx := -1
+								for i, q := range f.Params {
+									if q == par {
+										idx = i
+									}
+								}
+								if args, closed := c.argsAtCallers(f, idx); closed {
+									ws = true
+									var at []string
+									for _, a := range args {
+										s2, ws2 := isWhitespaceConst(a)
+										if !ws2 {
+											s2 = a.String()
+										}
+										at = append(at, fmt.Sprintf("%q", s2))
+										ws = ws && ws2
+									}
+									got = append(got, "parameter "+par.Name()+" (call sites pass "+strings.Join(at, ",")+")")
+									all = all && ws
+									continue
+								}
+							}
 							got = append(got, fmt.Sprintf("%q", s))
 							all = all && ws
 						}
